@@ -6,7 +6,7 @@ TRUSTED = ['hand models coq/Parts/Thread.v (threaded_cylinder, threaded_rod, tap
            'oracle props/partoracles.py: numerical flattening of the implementation trees (OpenSCAD transform semantics as written there)']
 ASSUMPTIONS = ['stdlib real-number axioms for the semantic lemma']
 def run(ctx):
-    n = 130 if ctx['tier'] == 'quick' else 1000
+    n = (130 * ctx.get('boost', 1)) if ctx['tier'] == 'quick' else 1000
     terms, cases, failures = partprop.run_parts('C14', n, ctx['seed'], 500, 504)
     pf, npairs = partoracles.c14_pairs(cases)
     failures += pf
